@@ -77,7 +77,19 @@ def random_lens(rnd, nsurf=None, kinds=("standard",), mirrors=False, tilts=False
             conic = 0.0
         kw = dict(index=j, surface_type=kind, radius=R, conic=conic, is_stop=(j == stop_at))
         if kind == "even_asphere":
-            kw["coefficients"] = [rnd.uniform(-1, 1) * 1e-4 / lo ** (2 * q + 1) for q in range(rnd.randint(1, 3))]
+            # the r^2 term stays weak (the paraxial model ignores it: known C04 finding); the r^4 and r^6
+            # terms reach a sag of up to 1e-3 lo at the rim of the largest beam (r = lo / 4), so that a
+            # coefficient used with the wrong power moves the surface by far more than the solver tolerance
+            kw["coefficients"] = [rnd.uniform(-1, 1) * (1e-4 / lo if q == 0 else 1e-3 * lo * (4.0 / lo) ** (2 * q + 2))
+                                  for q in range(rnd.randint(1, 3))]
+            # exact zeros are ordinary coefficients ("no r^2 term", padded lists): leading, interior, trailing
+            zsel = rnd.random()
+            if zsel < 0.25 and len(kw["coefficients"]) >= 2:
+                kw["coefficients"][0] = 0.0
+            elif zsel < 0.35 and len(kw["coefficients"]) == 3:
+                kw["coefficients"][1] = 0.0
+            elif zsel < 0.45:
+                kw["coefficients"] = kw["coefficients"] + [0.0, 0.0]
         elif kind == "polynomial":
             # every shape of coefficient matrix: tall, wide, square, and a flat list (1 x n)
             lin, quad = (lambda: rnd.uniform(-2e-3, 2e-3)), (lambda: rnd.uniform(-1e-4, 1e-4))
